@@ -428,3 +428,32 @@ def fns_in(src, o, c):
                     names.append(m.group(1))
         i += 1
     return names
+
+
+def check_literal_axioms(texts, workdir):
+    """L1 cross-check: every byte-string literal token for which an axiom `b"..."@ =~= seq![..]` is emitted is
+    compiled by plain rustc next to the byte values the extractor decoded; a mismatch is a machinery error."""
+    import os
+    import subprocess
+    pairs = []
+    for t in texts:
+        pairs += byte_literals(t)
+    seen, uniq = set(), []
+    for tok, b in pairs:
+        if tok not in seen:
+            seen.add(tok)
+            uniq.append((tok, b))
+    if not uniq:
+        return 0
+    os.makedirs(workdir, exist_ok=True)
+    src = os.path.join(workdir, "l1_guard.rs")
+    body = "".join("    assert_eq!(&%s[..], &[%s][..] as &[u8]);\n" % (tok, ", ".join("%du8" % x for x in b)) for tok, b in uniq)
+    open(src, "w").write("fn main() {\n" + body + "}\n")
+    exe = os.path.join(workdir, "l1_guard")
+    r = subprocess.run(["rustc", "-A", "warnings", "-o", exe, src], capture_output=True, text=True)
+    if r.returncode != 0:
+        raise RewriteRefused("L1 guard does not compile: " + r.stderr[-400:])
+    r = subprocess.run([exe], capture_output=True, text=True)
+    if r.returncode != 0:
+        raise RewriteRefused("L1 guard: a decoded byte-string literal differs from rustc's: " + r.stderr[-400:])
+    return len(uniq)
